@@ -27,7 +27,7 @@ RULE = ('precedence: for each of 12 keys (9 documented, 3 unknown) a seeded choi
 ASSUMPTIONS = ['prefix items are non-empty and contain no comma', 'equality of poll cadence is judged in logical terms '
                '(timer thread alive and >= 3 polls within a generous watchdog), not by wall-clock period']
 REQUIRE = {'two_start_sessions': 5, 'late_environment_reads': 30, 'function_settings_read_twice': 4, 'precedence_reads': 400, 'behaviour_sessions': 20, 'classifications': 5000, 'prefix_matched': 1500,
-           'exclusion_won': 200, 'reclassified_snapshots': 40}
+           'exclusion_won': 200, 'reclassified_snapshots': 40, 'hosts_with_unnormalised_file_names': 3}
 SHARD_TIMEOUT = {'quick': 400, 'thorough': 2400}
 
 DOCUMENTED = {   # key -> (module default when no env, kind)
@@ -514,15 +514,31 @@ def case_reclassify(seed, out, spec):
     r = Rng('c19r', seed)
     wd = Workdir('c19')
     try:
-        path = hostframe.write_host(wd.path, ['a'], depth=2, tag='rc')
+        via_dots = r.chance(0.4)
+        if via_dots:
+            # a module found through a path entry like 'src/../lib': its code objects keep the '..' in their file
+            # name. Whether a prefix is compared with the name as it stands or with its normal form is not spelled out;
+            # either reading is accepted, as long as flag and short path follow the same one.
+            os.makedirs(os.path.join(wd.path, 'src'))
+            os.makedirs(os.path.join(wd.path, 'lib'))
+            real = hostframe.write_host(os.path.join(wd.path, 'lib'), ['a'], depth=2, tag='rc')
+            path = os.path.join(wd.path, 'src', '..', 'lib', os.path.basename(real))
+            out.count('hosts_with_unnormalised_file_names')
+        else:
+            path = hostframe.write_host(wd.path, ['a'], depth=2, tag='rc')
         base = os.path.basename(path)
         mod = hostframe.load(path)
         line = hostframe.markers(path)['hit']
         parent = os.path.dirname(wd.path)
         seen = []
         for k in range(r.randrange(3, 6)):
-            mode = r.pick(['root', 'parent', 'include', 'exclude', 'none', 'exclude_in_root'])
+            mode = r.pick(['root', 'parent', 'include', 'exclude', 'none', 'exclude_in_root'] +
+                          (['libroot', 'libroot', 'lib_excluded'] if via_dots else []))
             app_root, inc, exc = '/nonexistent', [], []
+            if mode == 'libroot':
+                app_root = os.path.join(wd.path, 'lib')
+            elif mode == 'lib_excluded':
+                app_root, exc = wd.path, [os.path.join(wd.path, 'lib')]
             if mode == 'root':
                 app_root = wd.path
             elif mode == 'parent':
@@ -546,8 +562,13 @@ def case_reclassify(seed, out, spec):
             fr = snaps[0].frames[0]
             app, shorts = app_rule_for(app_root, inc, exc)(path)
             seen.append(mode)
-            if bool(fr.app_frame) != app or fr.short_path not in shorts:
-                out.violation('classify:stale-across-configurations',
+            ok = bool(fr.app_frame) == app and fr.short_path in shorts
+            if not ok and via_dots:
+                app, shorts = app_rule_for(app_root, inc, exc)(os.path.normpath(path))
+                ok = bool(fr.app_frame) == app and fr.short_path in shorts
+            if not ok:
+                out.violation('classify:unnormalised-file-name' if via_dots and mode in ('libroot', 'lib_excluded')
+                              else 'classify:stale-across-configurations',
                               'configuration %d (%s) after %s: frame flagged app=%r short=%r, its configuration says '
                               'app=%r short in %r' % (k, mode, seen[:-1], fr.app_frame, fr.short_path, app,
                                                       sorted(shorts)), {'sequence': seen}, replay_spec(spec, seed))
